@@ -385,6 +385,12 @@ def values_equal(a, b):
         return a == b
     if isinstance(a, (str, z3.SeqRef)) and isinstance(b, (str, z3.SeqRef)):
         return S(a) == S(b)
+    if type(a).__name__ == "FSet" or type(b).__name__ == "FSet":
+        if type(a).__name__ != type(b).__name__:
+            return False
+        # set equality of small sets with symbolic members: mutual inclusion
+        return b_and(*[b_or(*[values_equal(x, y) for y in b]) for x in a], *[b_or(*[values_equal(x, y) for x in a]) for y in b]) \
+            if len(a) and len(b) else (len(a) == len(b))
     if isinstance(a, (tuple, list)) and isinstance(b, (tuple, list)) and not isinstance(a, NArr):
         if isinstance(a, tuple) != isinstance(b, tuple):
             return False
